@@ -282,14 +282,7 @@ def run(ctx):
         schema = info.schema
         ctx.driver.add_schema(info)
         docs = [gen.gen_doc(rng, schema, budget=rng.choice([10, 20, 30])) for _ in range(ctx.budget(5, 10))]
-        for d in docs:
-            if ctx.time_left() < 0:
-                break
-            cands = []
-            for _ in range(ctx.budget(14, 30)):
-                name, st = first_step(rng, info, d, docs)
-                if st is not None and not isinstance(st, DocAttrStep):
-                    cands.append((name, st))
+        def check_doc(d, cands, generation=1):
             for (nm, st_) in cands:
                 if isinstance(st_, ReplaceAroundStep):
                     key = (info.name, repr(st_.to_json()))
@@ -425,6 +418,36 @@ def run(ctx):
                         metas.append((replay, info, x2, dy))
                     if len(reqs) >= 20000:
                         flush()     # keep memory bounded in long (thorough) runs
+            if generation == 1 and len(cands) >= 3 and rng.random() < 0.25:
+                # second generation: the steps that were rebased over one of the candidates are again steps made against one
+                # common document (the one that candidate produced).  A step that went through `Step.map` is a step like any
+                # other — it is applied, asked for its map and rebased once more — and pairs of them whose ranges are still
+                # separated have to commute like any pair
+                na, a = rng.choice(cands)
+                da = apply_doc(a, d)
+                nxt = []
+                if da is not None:
+                    for (nx, x) in cands:
+                        if x is a or not separated(a, x):
+                            continue
+                        stx, x2 = outcome(lambda: x.map(a.get_map()))
+                        if stx == "ok" and x2 is not None and apply_doc(x2, da) is not None:
+                            nxt.append((nx, x2))
+                if len(nxt) >= 2:
+                    rng.shuffle(nxt)
+                    ctx.count("second_generation_documents")
+                    ctx.count("second_generation_steps", len(nxt[:5]))
+                    check_doc(da, nxt[:5], generation=2)
+
+        for d in docs:
+            if ctx.time_left() < 0:
+                break
+            cands = []
+            for _ in range(ctx.budget(14, 30)):
+                name, st = first_step(rng, info, d, docs)
+                if st is not None and not isinstance(st, DocAttrStep):
+                    cands.append((name, st))
+            check_doc(d, cands)
     flush()
     return ctx.finish(
         rule="a case is (base document, step A, step B) where A and B are the first steps emitted by two random high-level "
